@@ -406,7 +406,7 @@ def lex_checks(ctx):
     from fieldcompare import _numpy_utils as nu
     rng = ctx.rng
     cases, tagsl, lines = [], [], []
-    for _ in range(ctx.scale(700, 12000)):
+    for _ in range(ctx.scale(700, 8000)):
         c, t = gen_lex_case(rng)
         cases.append(c)
         tagsl.append(t)
@@ -602,7 +602,7 @@ def run(ctx):
     ]
     unit_checks(ctx)
     lex_checks(ctx)
-    n_pairs = ctx.scale(330, 5000)
+    n_pairs = ctx.scale(330, 3000)
     CH = ctx.scale(110, 400)
     cli_budget = [ctx.scale(12, 200)]
     done = 0
